@@ -100,6 +100,12 @@ def run(prop, tier, seed, t0):
                 'frame %s (%s, R says %s): %s' % (fr, kind, rstat, '; '.join('%s -> %s' % (k[0] + (':' + k[1] if k[1] else ''), ','.join(sorted(g)[:6])) for k, g in groups.items())))
         else:
             nagree += 1
+    # valgrind memcheck over the uninstrumented build (assembly loops on) for a share of the frames: definedness on every decode path
+    HARNESSES.setdefault('h_c04/val', ('h_c04', 'val'))
+    vres = core.Result()
+    nvg = core.valgrind_stage(R, vres, HARNESSES['h_c04/val'], ['mode=run', 'dir=' + d], min(nframes, 3000 if thorough else 160), 0)
+    viol += vres.viol
+    res_all.inconclusive += vres.inconclusive
     res_all.viol = viol
     nmut = sum(1 for f in rtab.values() if f[3] == 'mut'); nmut_ok = sum(1 for f in rtab.values() if f[3] == 'mut' and f[0] == 'OK')
     cov = {
@@ -107,7 +113,7 @@ def run(prop, tier, seed, t0):
         'rule': 'frame set = tests/decodecorpus.c frames built from the tree (with and without dictionary; format features the compressor never emits), golden files, compressor output aimed at long offsets / big windows / >64 KiB literal sections / dictionaries, plus bit-flipped copies; '
                 'R (independent decoder, forked for mutated input) decides validity and the expected bytes; each frame goes through 10 decode paths {one-shot, 2 streaming segmentations, stableOut, disableHuffmanAssembly, buffer-less, in-place with advertised margin, DDict cold/warm/streaming} in 9 build variants '
                 '{default asm+BMI2, no asm, no BMI2, HUF X1, HUF X2, short / long(prefetch) sequence decoder, no legacy, ASan}; valid frames must succeed with R\'s bytes everywhere; all frames must get the same verdict and bytes on every path. distinct non-trivial = valid base frames compared',
-        'frames': len(frames), 'forged_parse_frames': len(forged), 'forged_parse_sequences': sum(int(f[1]) for f in forged), 'valid_base_frames': nvalid, 'mutated_frames': nmut, 'mutated_frames_still_valid_per_R': nmut_ok, 'path_x_variant_comparisons': ncmp, 'frames_with_full_agreement': nagree, 'invalid_frames_with_path_disagreement(out of scope)': res_all.stats.get('invalid_frames_with_path_disagreement(out of scope)', 0), 'paths': sorted(paths_seen), 'variants': VARIANTS,
+        'frames_under_valgrind_memcheck': nvg, 'frames': len(frames), 'forged_parse_frames': len(forged), 'forged_parse_sequences': sum(int(f[1]) for f in forged), 'valid_base_frames': nvalid, 'mutated_frames': nmut, 'mutated_frames_still_valid_per_R': nmut_ok, 'path_x_variant_comparisons': ncmp, 'frames_with_full_agreement': nagree, 'invalid_frames_with_path_disagreement(out of scope)': res_all.stats.get('invalid_frames_with_path_disagreement(out of scope)', 0), 'paths': sorted(paths_seen), 'variants': VARIANTS,
         'features_in_valid_frames(R events)': {k: v for k, v in ref.stats.items() if k.startswith('feat_')}, 'sequence_mode_bytes_seen': ref.ncells('seq_modes'),
         'samples': [{'frame': f, 'R': rtab[f][0], 'bytes': rtab[f][1], 'kind': rtab[f][3]} for f in frames[:: max(1, len(frames) // 6)]][:8],
     }
